@@ -1,7 +1,8 @@
 /-
-C16 witnesses (concrete metadata; both are replayed
-on the real `verify_all_tables` by the harness on every run: `directed:same-alu-main-width`
-cases and the `packing.alu_lanes` / `common.width` single alterations).
+C16 records of the behaviour before `fixes/C16-1.diff` on concrete metadata, restated for the
+patched verifier (both are replayed on the real `verify_all_tables` by the harness on every run:
+`directed:same-alu-main-width` cases, the `packing.alu_lanes` / `common.width` single alterations
+and the corpus case of F-C16-1). Nothing here negates a theorem of `P3R.Props.C16`.
 
 Setting: base field (`D = 1`), no plug-ins, an honest proof made with `public_lanes = 3`,
 `alu_lanes = 3`, `horner_packed_steps = 2`; its `stark_common` declares preprocessed widths
@@ -38,37 +39,26 @@ def body : Body := bodyOf s0
 theorem sys_orig : sysOf exp [] orig = some s0 := by decide
 theorem sys_alt : sysOf exp [] alt = some s1 := by decide
 
-/-- `airs_determined` without the `PrepExact` hypothesis is false of the checks modelled
-(metadata checks, instance count, opened main width, declared-vs-opened preprocessed width,
-preprocessed metadata): two metadata records pass all of them against the same proof body and
-select different ALU AIRs. The real `verify_batch` has one more structural check that the model
-does not contain (packed lookup count of the rebuilt AIR vs the opened permutation row); it
-rejected this witness and every other same-main-width alteration the harness tried
-(`lookup:PermutationWidthMismatch`), so this is a statement about main / preprocessed widths,
-not a defect report. The harness reports a violation if such an alteration ever gets past it. -/
-theorem widths_alone_do_not_determine_airs :
-    ¬ (∀ (exp : Expected) (reg : List Plugin) (body : Body) (m m' : Meta) (s s' : Sys),
-        sysOf exp reg m = some s → sysOf exp reg m' = some s' →
-        shapeStage s body = none → shapeStage s' body = none → PluginsSeparated reg → s.airs = s'.airs) := by
-  intro h
-  have hsep : PluginsSeparated [] := by
-    intro e e' a a' ha
-    simp [npoAir, findPlugin] at ha
-  have := h exp [] body orig alt s0 s1 sys_orig sys_alt (by decide) (by decide) hsep
-  exact absurd this (by decide)
+/-- the unaltered proof passes the declared-width check and the shape stage -/
+theorem orig_passes : shapeStage s0 body = none := by decide
 
-/-- … and the hypothesis that repairs it is exactly what fails on the witness. -/
-theorem alt_not_prep_exact : ¬ PrepExact s1 := by unfold PrepExact; decide
 theorem orig_prep_exact : PrepExact s0 := by unfold PrepExact; decide
+theorem alt_not_prep_exact : ¬ PrepExact s1 := by unfold PrepExact; decide
 
-/-- Whatever the cryptographic layer says, an under-declared preprocessed width makes the
-verifier panic (index out of bounds in the symbolic evaluation) instead of returning an error. -/
-theorem underdeclared_width_panics (crypto : Sys → Bool) :
-    verify crypto body exp [] altWide = .panic := by
+/-- Record of the old collision: `(alu_lanes, K) = (3,2)` and `(1,5)` have the same ALU main
+width and 41 ≤ 46 declared columns, so before `fixes/C16-1.diff` both passed every modelled
+check against the same body. With the declared-width check the altered record is rejected
+before `verify_batch` (46 declared ≠ 41 read). -/
+theorem same_main_width_now_rejected : shapeStage s1 body = some (.reject "prep-width") := by decide
+
+/-- Record of F-C16-1: `alu_lanes 3 → 4` (59 columns read, 46 declared) used to make the
+verifier panic; it is now a rejection, whatever the cryptographic layer says. -/
+theorem underdeclared_width_rejected (crypto : Sys → Bool) :
+    verify crypto body exp [] altWide = .reject "prep-width" := by
   simp only [verify]
   rfl
 
 end P3R.Witness.C16
 
-#print axioms P3R.Witness.C16.widths_alone_do_not_determine_airs
-#print axioms P3R.Witness.C16.underdeclared_width_panics
+#print axioms P3R.Witness.C16.same_main_width_now_rejected
+#print axioms P3R.Witness.C16.underdeclared_width_rejected
